@@ -140,6 +140,11 @@ def table():
     q("fragment_y_mono_mass")(lambda pp, a, x: pp.fragment(a, "y", [1, 2], monoisotopic=True, return_type="mass"))
     q("fragment_objects")(lambda pp, a, x: pp.fragment(a, ["b", "y"], 1))
     q("fragmenter_object")(lambda pp, a, x: pp.Fragmenter(a))
+    q("write_chem_formula_precision")(lambda pp, a, x: pp.write_chem_formula(x["fraccomp"], precision=2, hill_order=False))
+    q("write_chem_formula_unsorted")(lambda pp, a, x: pp.write_chem_formula(x["fraccomp"], hill_order=False))
+    q("chem_mass_fractional")(lambda pp, a, x: pp.chem_mass(x["fraccomp"]))
+    q("condense_to_mass_mods_precise")(lambda pp, a, x: pp.condense_to_mass_mods(a, include_plus=True, precision=3))
+    q("create_multi_annotation")(lambda pp, a, x: pp.create_multi_annotation([a] + x["chains"], x["links"]))
     q("parse_text")(lambda pp, a, x: pp.parse("[Acetyl]-PEP[1]TIDE/2"))
     # ------------------------------------------------------------------ queries whose arguments are immutable texts:
     # their answers can only depend on hidden process-wide state (caches, lazily completed tables)
@@ -192,6 +197,8 @@ def aux(pp):
         "staticlist": [Mod("[Oxidation]@M", 1)], "rawmods": ["Oxidation", 1.5, Mod("Acetyl", 1)],
         "internaldict": {0: [Mod("Phospho", 1)]},
         "intervallist": [pp.Interval(1, 3, False, [Mod("Phospho", 1)])],
+        "chains": [pp.parse("TIDE[1]")], "links": [True],
+        "fraccomp": {"C": 2.123456, "H": 4.5, "O": 1, "e": -0.25},
         "enzymes": ["trypsin/P", "asp-n"], "config": pp.EnzymeConfig(regex=["lys-c", "(?<=D)"]),
         "configs": [pp.EnzymeConfig(regex=["trypsin/P"]), pp.EnzymeConfig(regex=["glu-c", "asp-n"], missed_cleavages=1)],
     }
